@@ -13,6 +13,7 @@ import (
 	"github.com/basecomplextech/baselibrary/pools"
 	"github.com/basecomplextech/baselibrary/ref"
 	"github.com/basecomplextech/baselibrary/status"
+	"github.com/basecomplextech/spec/internal/verifpoint"
 	"github.com/basecomplextech/spec/mpx"
 	"github.com/basecomplextech/spec/proto/prpc"
 )
@@ -89,6 +90,7 @@ type serverChannelState struct {
 
 func newServerChannel(ch mpx.Channel, req prpc.Request) *serverChannel {
 	s := acquireServerState()
+	verifpoint.Point("pool.rpcsrvstate.get", verifpoint.Ptr(s), s.verifDirty(), 0)
 	s.ch = ch
 	s.method = requestMethod(s.method, req)
 	s.recvReq = req
@@ -381,6 +383,7 @@ func acquireServerState() *serverChannelState {
 }
 
 func releaseServerState(s *serverChannelState) {
+	verifpoint.Point("pool.rpcsrvstate.put", verifpoint.Ptr(s), 0, 0)
 	s.reset()
 	serverStatePool.Put(s)
 }
